@@ -25,7 +25,12 @@ pub fn oracle(p: &Program) -> Vec<Violation> {
     let name = p.kind.name();
     let mut out: Vec<Violation> = Vec::new();
     let total = flat.len();
+    // ops refused by the crate add no node (only the >64 KiB VIOT histories have any)
+    let mut refused: Vec<bool> = vec![false; flat.len()];
     drive(p, &flat, &mut |o: &Obs| {
+        if o.step > 0 && o.refused {
+            refused[o.step - 1] = true;
+        }
         if !out.is_empty() {
             return;
         }
@@ -33,7 +38,16 @@ pub fn oracle(p: &Program) -> Vec<Violation> {
             return;
         }
         let w = walk(p.kind, o.image);
-        if !w.issues.is_empty() || w.entries.len() != o.step {
+        // entry index of op i = number of accepted ops before it
+        let mut eidx: Vec<usize> = Vec::with_capacity(o.step);
+        let mut acc = 0usize;
+        for r in refused[..o.step].iter() {
+            eidx.push(acc);
+            if !*r {
+                acc += 1;
+            }
+        }
+        if !w.issues.is_empty() || w.entries.len() != acc {
             // framing is C03's subject; C05 needs a walkable image to judge offsets
             let i = w.issues.first();
             out.push(Violation::new(
@@ -50,7 +64,7 @@ pub fn oracle(p: &Program) -> Vec<Violation> {
         // per handle kind: op index of the k-th handle
         let of_kind = |k: HKind| -> Vec<&HandleRec> { o.handles.iter().filter(|h| h.kind == k).collect() };
         for h in o.handles.iter() {
-            let e = &w.entries[h.op];
+            let e = &w.entries[eidx[h.op]];
             let ty_ok = if h.kind == HKind::Viot { e.ty == 3 || e.ty == 4 } else { e.ty == expect_type(h.kind) };
             if h.value as usize != e.offset || !ty_ok {
                 out.push(Violation::new(
@@ -65,7 +79,10 @@ pub fn oracle(p: &Program) -> Vec<Violation> {
         }
         // every reference field resolves to the node its handle was returned for
         for (i, op) in flat[..o.step].iter().enumerate() {
-            let e = &w.entries[i];
+            if refused[i] {
+                continue;
+            }
+            let e = &w.entries[eidx[i]];
             let mut refs: Vec<(&'static str, u32, usize)> = Vec::new(); // (field, found value, target op index)
             match op {
                 Op::PpttCache { sets } => {
@@ -105,7 +122,7 @@ pub fn oracle(p: &Program) -> Vec<Violation> {
                 _ => {}
             }
             for (field, found, target) in refs {
-                let want = w.entries[target].offset as u32;
+                let want = w.entries[eidx[target]].offset as u32;
                 if found != want {
                     out.push(Violation::new(
                         "C05",
@@ -169,7 +186,22 @@ pub fn run(ctx: &Ctx) {
     ctx.set_rule("generated interleavings of all node kinds of PPTT, RHCT, RIMT and VIOT (handle-returning or not, fixed or variable size: ISA strings of both parities, processors with 0..58 resources, IOMMUs with 0..30 wires, platform names of any length), with later uses of any earlier handle; every returned handle (read through Debug for PPTT/RHCT, through the reference field a probe object built from it carries for RIMT/VIOT) must equal the offset at which the independent walker finds that very node (right type), and every reference field in the image must equal the offset of the node its handle was returned for; on every prefix of short histories. Non-trivial = a handle used after a node of a different kind or size was added between its creation and its use; distinct by hash.");
     ctx.assume("VIOT images stay below 64 KiB (16-bit handles); beyond that is C18's subject");
     let seed = ctx.seed;
-    table_list(ctx, "c05.directed", directed_programs(KINDS, seed), &oracle, &nontrivial);
+    let mut directed = directed_programs(KINDS, seed);
+    // VIOT beyond 64 KiB: a node whose offset no longer fits the 16-bit handle must be
+    // refused or named correctly -- never a wrapped handle
+    for n in [2_728u32, 2_729, 2_730, 2_731, 4_000] {
+        let b = Bdf { seg: 1, bus: 2, dev: 3, func: 4 };
+        let mut p = plain_program(Kind::Viot, seed);
+        p.ops = vec![
+            Op::ViotPciIommu(b),
+            Op::Repeat(Box::new(Op::ViotPciRange { first: b, last: b, h: 0 }), n),
+            Op::ViotMmioIommu(0x1000),
+            Op::ViotMmioEp { id: 1, base: 2, h: 1 },
+            Op::ViotPciRange { first: b, last: b, h: 1 },
+        ];
+        directed.push(p);
+    }
+    table_list(ctx, "c05.directed", directed, &oracle, &nontrivial);
     table_pt(ctx, "c05.random", KINDS, ctx.scale(8_000, 400_000), &oracle, &nontrivial);
 }
 
